@@ -8,6 +8,12 @@
 (*           =>  y(T) = (3/(1+T), 1/(1+T), A/(1+T^2)),  A = 2^-20                 *)
 (*           (the error norm of the controller is component-wise: an error norm  *)
 (*           dominated by the large components loses the small one)              *)
+(*   "decay" y' = -y,         y(0) = 1   =>  y(T) = exp(-T) = b^k with b = exp(-1/8), T = k/8 = 20, 40.  b is irrational; the        *)
+(*           specification supplies the ENCLOSURE S_5 < b < S_6 by the partial sums of the alternating series of exp(-1/8)            *)
+(*           (terms decrease, so consecutive partial sums enclose the limit), over the common denominator 8^6 6!; TLC checks          *)
+(*           the arithmetic (EnclosureIsTight).  y(T) lies in [S_5^k, S_6^k], relative width < 2e-6: enough for rtol >= 1e-6.          *)
+(*           The tolerance is almost purely relative (atol = 1e-26 rtol) and the solution decays by 17 orders of magnitude:           *)
+(*           a controller that weighs the error against a scale remembered from earlier steps is off by that much.                    *)
 (* with T = k/8.  Amp is a bound on the problem's own error amplification        *)
 (* |dy(T)/dy(0)| = y(T)^2 (and at least 1).                                      *)
 (* With $VF_OUT and no $VF_IN the module writes the case list (generator); with  *)
@@ -15,12 +21,24 @@
 (* ceil(|y_obs - y(T)| / (atol + rtol |y(T)|)) computed in exact arithmetic.     *)
 EXTENDS Integers, Sequences, FiniteSets, TLC, Json, IOUtils, Bounds, SequencesExt
 
+DecayDen == 188743680                    \* 8^6 * 6!
+RECURSIVE Fact(_), Pow8(_)
+Fact(n) == IF n = 0 THEN 1 ELSE n * Fact(n - 1)
+Pow8(n) == IF n = 0 THEN 1 ELSE 8 * Pow8(n - 1)
+RECURSIVE PartialSum(_)                  \* numerator of S_n = SUM_{j <= n} (-1/8)^j / j! over DecayDen
+PartialSum(n) == (IF n = 0 THEN 0 ELSE PartialSum(n - 1)) + (IF n % 2 = 0 THEN 1 ELSE -1) * (DecayDen \div (Pow8(n) * Fact(n)))
+DecayLo == PartialSum(5)
+DecayHi == PartialSum(6)
+EnclosureIsTight == /\ DecayDen = Pow8(6) * Fact(6) /\ \A n \in 0..6 : DecayDen % (Pow8(n) * Fact(n)) = 0
+                    /\ DecayHi - DecayLo = 1 /\ DecayLo > 0          \* the two sums differ by the 6th term, 1 / DecayDen
+DecayKs == {160, 320}
 Problems == {"rat", "tdep", "tdepsmall", "pair"}     \* tdepsmall: y' = -2 t y^2 / A, y(0) = A = 2^-20, y(T) = A/(1+T^2)
 Ks == {-4, -3, 4, 8, 16}         \* T = k/8 : -1/2, -3/8, 1/2, 1, 2
 ExactNum(p, k) == IF p = "rat" THEN 8 ELSE IF p = "pair" THEN 24 ELSE 64
 ExactDen(p, k) == IF p \in {"rat", "pair"} THEN 8 + k ELSE IF p = "tdep" THEN 64 + k * k ELSE (64 + k * k) * 1048576
 (* all components; the scalar problems have one *)
-Comps(p, k) == IF p = "pair" THEN <<[num |-> 24, den |-> 8 + k], [num |-> 8, den |-> 8 + k], [num |-> 64, den |-> (64 + k * k) * 1048576]>>
+Comps(p, k) == IF p = "decay" THEN <<[num |-> DecayLo, den |-> DecayDen], [num |-> DecayHi, den |-> DecayDen]>>       \* enclosure of the base b: y(T) in [lo^k, hi^k]
+               ELSE IF p = "pair" THEN <<[num |-> 24, den |-> 8 + k], [num |-> 8, den |-> 8 + k], [num |-> 64, den |-> (64 + k * k) * 1048576]>>
                ELSE <<[num |-> ExactNum(p, k), den |-> ExactDen(p, k)]>>
 Abs(x) == IF x < 0 THEN -x ELSE x
 Max2(a, b) == IF a > b THEN a ELSE b
@@ -31,10 +49,12 @@ AmpPair(k) == Max2(1, Max2(CeilDiv(8 * (8 + k) + 24 * Abs(k), (8 + k) * (8 + k))
 Amp(p, k) ==
     LET n == ExactNum(p, k) d == IF p = "tdepsmall" THEN 1 ELSE ExactDen(p, k)
         q == (n * n + d * d - 1) \div (d * d)
-    IN  IF p = "pair" THEN AmpPair(k) ELSE IF p = "tdepsmall" THEN 1 ELSE IF q < 1 THEN 1 ELSE q
+    IN  IF p = "decay" THEN 1 ELSE IF p = "pair" THEN AmpPair(k) ELSE IF p = "tdepsmall" THEN 1 ELSE IF q < 1 THEN 1 ELSE q
 
 GenOut == [cases |-> SetToSeq({[problem |-> p, k |-> k, num |-> ExactNum(p, k), den |-> ExactDen(p, k), amp |-> Amp(p, k), comps |-> Comps(p, k)]
-                               : p \in Problems, k \in Ks})]
+                               : p \in Problems, k \in Ks}
+                              \cup {[problem |-> "decay", k |-> k, num |-> DecayLo, den |-> DecayDen, amp |-> 1, comps |-> Comps("decay", k)] : k \in DecayKs})]
+ASSUME EnclosureIsTight
 
 HasIn == "VF_IN" \in DOMAIN IOEnv
 In == IF HasIn THEN JsonDeserialize(IOEnv.VF_IN) ELSE [cases |-> << >>]
@@ -43,7 +63,7 @@ Cases == In.cases
 VARIABLES i, bad
 vars == <<i, bad>>
 CheckCase(o) ==
-    (IF o.num = ExactNum(o.problem, o.k) /\ o.den = ExactDen(o.problem, o.k) /\ o.comps = Comps(o.problem, o.k) THEN {} ELSE {[id |-> o.id, clause |-> "C05.SensorUsedSpecSolution"]})
+    (IF (o.problem = "decay" \/ (o.num = ExactNum(o.problem, o.k) /\ o.den = ExactDen(o.problem, o.k))) /\ o.comps = Comps(o.problem, o.k) THEN {} ELSE {[id |-> o.id, clause |-> "C05.SensorUsedSpecSolution"]})
     \cup (IF o.ok THEN {} ELSE {[id |-> o.id, clause |-> "C05.RunCompletes"]})
     \cup (IF o.ok /\ o.errUnits > AccuracyK * Amp(o.problem, o.k) THEN {[id |-> o.id, clause |-> "C05.GlobalErrorProportionalToTolerance"]} ELSE {})
     \cup (IF o.ok /\ o.endUnits > EndUnits THEN {[id |-> o.id, clause |-> "C05.ReachesTheEndTime"]} ELSE {})
